@@ -250,6 +250,29 @@ CheckLabels(p, k) ==
            \/ Fail(p, "C20_input", [unit |-> k, name |-> n, line |-> LineOf(ss, i), found |-> {<<Desc(u, e).raw>> : e \in K}])
 ASSUME \A p \in PIDs : \A k \in DOMAIN UnitsOf(p) : (~Active("C20_label") /\ ~Active("C20_input")) \/ ~WiresOK(UnitsOf(p)[k]) \/ CheckLabels(p, k)
 
+(* C09: user-placed entities appear once, where and how the program says.  Expected = the interpreter's list of executed   *)
+(* place() statements (loops iterate, calls substitute); actual = every entity of the blueprint that is not compiler-made   *)
+(* (combinators, poles).  Top-left tile (x, y) <=> centre = (x, y) + footprint / 2.                                        *)
+UserEnts(u) == {e \in Ids(u) : KindT[u][e] = "E"}
+\* a static property is exported either at the top level of the entity record or inside its control_behavior
+PropIn(r, pr) == pr.k \in DOMAIN r /\ (IF pr.k = "direction" THEN r[pr.k] = pr.v.v ELSE r[pr.k] = (pr.v.v # 0))
+PropOK(ent, pr) == PropIn(ent, pr) \/ PropIn(Get(ent, "control_behavior", <<>>), pr)
+CheckPlaces(p, k) ==
+  LET u == UnitsOf(p)[k]
+      w == World(p, k, [i \in 1..NIn(p) |-> IF i <= NDecl(p) THEN InStmtsT[p][i].dv ELSE 0], <<>>)
+      X == w.ents
+      same(i, j) == X[i].proto = X[j].proto /\ X[i].x = X[j].x /\ X[i].y = X[j].y
+  IN /\ \A i \in DOMAIN X :
+          LET E == EntAt(u, X[i]) IN
+          /\ (Cardinality(E) = Cardinality({j \in DOMAIN X : same(i, j)})
+               \/ Fail(p, "C09_bag", [unit |-> k, entity |-> X[i].n, proto |-> X[i].proto, x |-> X[i].x, y |-> X[i].y, found |-> Cardinality(E)]))
+          /\ \A e \in E : \A j \in DOMAIN X[i].props :
+                PropOK(Ents(u)[e], X[i].props[j]) \/ Fail(p, "C09_props", [unit |-> k, entity |-> X[i].n, prop |-> X[i].props[j].k])
+     /\ \A e \in UserEnts(u) :
+          (\E i \in DOMAIN X : e \in EntAt(u, X[i]))
+          \/ Fail(p, "C09_extra", [unit |-> k, name |-> Ents(u)[e].name, x2 |-> Ents(u)[e].position.x.f2, y2 |-> Ents(u)[e].position.y.f2])
+ASSUME \A p \in PIDs : \A k \in DOMAIN UnitsOf(p) : (~Active("C09_bag")) \/ ~WiresOK(UnitsOf(p)[k]) \/ CheckPlaces(p, k)
+
 (* C11_range: every constant placed in an accepted blueprint is a signed 32-bit value (the encoder reports the others) *)
 ASSUME \A p \in PIDs : \A k \in DOMAIN UnitsOf(p) :
          LET o == Get(BPs[UnitsOf(p)[k]], "oor", <<>>) IN Len(o) = 0 \/ Fail(p, "C11_range", [unit |-> k, constants |-> o])
